@@ -82,6 +82,7 @@ package ro
 // ---------------------------------------------------------------------------
 
 //@ type subscriberImpl
+//@   promoted Wait Add AddUnsubscribable | C03,C06,C14,C15
 //@   atomic status : rely new == old || (old == 0 && (new == 1 || new == 2)) ; guar old == 0 && (new == 1 || new == 2)
 //@   const backpressure mu destination Subscription mode
 //@   ghost term bool
